@@ -339,10 +339,16 @@ func (dec *xmlDecoder) decodeXML(root *xmlNode) error {
 			}
 
 		case xml.ProcInst:
+			if elem == nil {
+				return fmt.Errorf("invalid XML: processing instruction after an unmatched closing tag")
+			}
 			if !dec.prefs.SkipProcInst {
 				elem.n.AddChild(dec.prefs.ProcInstPrefix+se.Target, &xmlNode{Data: []string{string(se.Inst)}})
 			}
 		case xml.Directive:
+			if elem == nil {
+				return fmt.Errorf("invalid XML: directive after an unmatched closing tag")
+			}
 			if !dec.prefs.SkipDirectives {
 				elem.n.AddChild(dec.prefs.DirectiveName, &xmlNode{Data: []string{string(se)}})
 			}
